@@ -58,6 +58,7 @@ func TestC02(t *testing.T) {
 		noteCase("C02", "iso", p.JSON())
 		res := Guard(func() Result { return RunC02(p) })
 		rec.Case(p.JSON(), harness.HashBytes(p.JSON()), res.Counters, res.Nontrivial, res.V)
+		abortOnHang(rec, res.V)
 		if res.V != nil {
 			rt.Fatalf("C02 violated: %v", res.V)
 		}
